@@ -13,7 +13,8 @@ import (
 	"strings"
 )
 
-const c06Header = `From Verif Require Import Base Scope Types Prog Pop Token Authorize System Config Run Monitors C06.
+const c06Header = `From Verif Require Import Base Scope Types Prog Pop Token Authorize System Config Run Monitors.
+Require Import Verif.Corr.C06.
 Local Open Scope N_scope.
 `
 
